@@ -655,6 +655,39 @@ func c05(r *Report, s *Sem) {
 			}})
 			r.Check(R2, "func "+fnName(reqFn)+" / entry removed on every exit", p.instrPos(insert.in), len(exits) == 0,
 				fmt.Sprintf("%d exit(s) after the insert not covered by a (deferred) delete of the request's id", len(exits)))
+			// every request that is sent was registered first, whatever its method or other fields
+			nSend := 0
+			eachCall(reqFn, func(c ssa.CallInstruction) {
+				if !c.Common().IsInvoke() {
+					return
+				}
+				if _, isParam := stripConv(c.Common().Value).(*ssa.Parameter); !isParam {
+					return
+				}
+				if n := namedOf(c.Common().Value.Type()); n == nil || n.Obj().Pkg() != p.LimeT {
+					return
+				}
+				nSend++
+				// every feasible path from the entry to the send passes the insert (edges that contradict what is known at
+				// the send — e.g. the not-in-use flag — are not taken)
+				unregistered := false
+				ci := c.(ssa.Instruction)
+				walkFrom(reqFn, nil, walkOpts{cutEdge: contradicts(ci.Block()), barrier: func(in ssa.Instruction) bool {
+					if in == insert.in {
+						return true
+					}
+					if in == ci {
+						unregistered = true
+						return true
+					}
+					return false
+				}})
+				r.Check(R2, "func "+fnName(reqFn)+" / the request is sent only after it was registered", p.instrPos(c), !unregistered,
+					"a path sends the request without a pending entry (e.g. for one method only): its response is then surfaced as unmatched and the caller gets neither response nor context error")
+			})
+			if nSend == 0 {
+				r.Undecided(R2, "func "+fnName(reqFn)+" / send through the sender parameter", p.pos(reqFn.Pos()), "no invoke on a parameter of an interface of the package")
+			}
 			// R3
 			for _, rl := range returnLeaves(reqFn, 0) {
 				if isNilConst(rl.v) {
